@@ -153,6 +153,9 @@ def step (st : St) (op impl : String) : St × DrvOut :=
   | "list" :: _ =>
     (st, { model := "eq",
            spec := if impl == "eq" then "ok"
+                   else if argOf toks "mode" == "pair" then
+                     "FAIL two paths whose names differ by a suffix, set through variables (first: " ++ bytesStr (hexS (argOf toks "name")) ++
+                     "), differ from the same paths written in the file: " ++ impl
                    else "FAIL a list of " ++ argOf toks "n" ++ " items given through " ++ bytesStr (hexS (argOf toks "name")) ++
                         "_<i>_… (mode " ++ argOf toks "mode" ++ ") differs from the same list written in the file: " ++ impl })
   | "leaf" :: _ =>
